@@ -397,6 +397,18 @@ func extremeTimes(r *mon.Run, id *gen.Identity) {
 		{"date=-2^33,expires=now+10", -(1 << 33), now + 10, now, false, "lifetime above 7 days"},
 		{"date=2^62,expires=2^62+3600,at=2^62+5", 1 << 62, 1<<62 + 3600, 1<<62 + 5, true, ""},
 		{"date=now+5,expires=now-5", now + 5, now - 5, now, false, "expires before date"},
+		// reversed windows whose date is so large that converting it to a time.Time wraps into the far past (the last
+		// 62135596800 seconds of the int64 range), with an ordinary expires: t < date, the window is empty
+		{"date=max,expires=now+10", maxI, now + 10, now, false, "not yet valid (date is in the far future) / expires before date"},
+		{"date=max-1,expires=now+3600", maxI - 1, now + 3600, now, false, "not yet valid / expires before date"},
+		{"date=max-62135596800+1,expires=now+10", maxI - 62135596800 + 1, now + 10, now, false, "not yet valid / expires before date"},
+		{"date=max-62135596800,expires=now+10", maxI - 62135596800, now + 10, now, false, "not yet valid / expires before date"},
+		{"date=max-31e9,expires=now+604000", maxI - 31000000000, now + 604000, now, false, "not yet valid / expires before date"},
+		{"date=2^63-2^40,expires=now+10", maxI - 1<<40, now + 10, now, false, "not yet valid / expires before date"},
+		{"date=2^62,expires=now+10", 1 << 62, now + 10, now, false, "not yet valid / expires before date"},
+		{"date=now-10,expires=min", now - 10, minI, now, false, "expired / expires before date"},
+		{"date=max,expires=min", maxI, minI, now, false, "expires before date"},
+		{"date=max,expires=max,at=now", maxI, maxI, now, false, "not yet valid"},
 	}
 	for _, ver := range gen.SXGVersions {
 		for _, c := range cases {
